@@ -58,6 +58,10 @@ structure Acc where
 
 def timed (m : String) : Bool := m == "t" || m == "d"
 
+/-- script calls that only add pending data to the output buffer (WriteBinary `M`, a burst of Appends `V`): no Flush inside,
+nothing is submitted, the Flush/Write obligations do not apply to their return -/
+def noFlush (op : String) : Bool := op == "M" || op == "V"
+
 def bad (a : Acc) (msg : String) : Acc :=
   if a.callsAfterTimeout > 0 then
     { a with known := a.known ++ [s!"D9b-two-owners-after-write-timeout call {a.idx} ({a.op}{a.n}{a.mode}): {msg}"] }
@@ -70,7 +74,7 @@ def badRun (a : Acc) (msg : String) : Acc :=
 def onEv (a : Acc) : Ev → Acc
   | .call idx op n mode =>
       { a with inCall := true, idx := idx, op := op, n := n, mode := mode, fired := false, slotAtTick := false, closedAtCall := a.closedSeen,
-               callsAfterTimeout := if a.timedOutBefore && op != "M" then a.callsAfterTimeout + 1 else a.callsAfterTimeout }
+               callsAfterTimeout := if a.timedOutBefore && !noFlush op then a.callsAfterTimeout + 1 else a.callsAfterTimeout }
   | .submitted d => { a with sub := a.sub + d }
   | .accepted k => { a with acc := a.acc + k }
   | .skipped k => { a with skp := a.skp + k }
@@ -89,7 +93,7 @@ def onEv (a : Acc) : Ev → Acc
       let mut a := a
       if !a.inCall || a.idx != idx then
         return { a with errs := a.errs ++ [s!"C08 ret {idx} without its call"] }
-      if a.op != "M" then
+      if !noFlush a.op then
         if a.skp + out != a.sub then
           a := bad a s!"accounting broken: taken out after acceptance {a.skp} + buffered {out} ≠ submitted {a.sub}"
         if res == "ok" then
